@@ -5,7 +5,7 @@ from vlib import tables
 from gen import regs, templates
 
 ID = "C10"
-THEOREMS = ["Bufr.C10.C10_factor_count"]
+THEOREMS = ["Bufr.C10.C10_static_refines", "Bufr.C10.C10_rejects", "Bufr.C10.C10_rejects_unknown", "Bufr.C10.C10_factor_count"]
 RULE = ("exhaustive: every Table D entry of every shipped table set as a one-descriptor template, expanded with "
         "cyclic factor assignments; generated templates nesting fixed/delayed replication and Table D to depth 4 "
         "with all five class 31 factors; ill-formed variants (unknown descriptors, spans past the end, overlapping "
@@ -100,7 +100,13 @@ def oracle(scn, outs):
     ts = " ".join("%06d" % d for d in t)
     for line, o in zip(scn.lines, outs):
         op = line.split()[0]
+        if op == "T.use" and line.split()[1] in P:
+            B, D = P[line.split()[1]]
         if op == "tm.new":
+            t = [int(x) for x in line.split()[2:]]
+            ts = " ".join("%06d" % d for d in t)
+            wf = regs.well_formed(B, D, t)
+            wfd = wf or regs.well_formed_deferred(B, D, t)
             accepted = o.startswith("ok")
             have_subset, dead = False, False
             if accepted and not wfd:
